@@ -15,7 +15,7 @@ struct Case {
     int shape = 0, loc = 0;
     std::vector<uint64_t> cells;
 };
-static const char *SHAPES[] = {"filled-disk", "disk-with-random-removals", "ring+island(nested)", "several-components", "nested-rings+extra-components", "line/strip"};
+static const char *SHAPES[] = {"filled-disk", "disk-with-random-removals", "ring+island(nested)", "several-components", "nested-rings+extra-components", "line/strip", "out-of-domain(error path)"};
 static std::string ser(const Case &c) {
     std::string s = fmt("res=%d shape=%d loc=%d n=%zu cells=", c.res, c.shape, c.loc, c.cells.size());
     for (size_t i = 0; i < c.cells.size(); i++) s += fmt(i ? ",%llx" : "%llx", (unsigned long long)c.cells[i]);
@@ -48,8 +48,37 @@ struct DSU {
     void u(int a, int b) { p[f(a)] = f(b); }
 };
 
+// out-of-domain sets (duplicate, invalid or mixed-resolution members): the function may fail or succeed, but "when the function reports an
+// error nothing is left allocated", and a success must be releasable by destroyLinkedMultiPolygon without a trace
+static void errorPath(const Case &c) {
+    am::M().reset();
+    LinkedGeoPolygon out;
+    memset(&out, 0xA5, sizeof out);
+    std::vector<uint64_t> cells = c.cells;
+    H3Error e = va_cellsToLinkedMultiPolygon(cells.data(), (int)cells.size(), &out);
+    if (e != E_SUCCESS) {
+        size_t leaked = am::M().live.size();
+        long bad = am::M().badFrees;
+        am::M().reset();
+        COUNT("error_path.reported_error");
+        NONTRIVIAL();
+        CHECK(e <= 15, "code", "undocumented error code %u", e);
+        CHECK(leaked == 0, "leak-on-error", "cellsToLinkedMultiPolygon failed with %u on an out-of-domain set and left %zu blocks allocated", e, leaked);
+        CHECK(bad == 0, "bad-free", "cellsToLinkedMultiPolygon failed with %u and freed a block twice / a foreign pointer", e);
+        return;
+    }
+    COUNT("error_path.accepted");
+    va_destroyLinkedMultiPolygon(&out);
+    size_t leaked = am::M().live.size();
+    long bad = am::M().badFrees;
+    am::M().reset();
+    CHECK(leaked == 0, "leak", "after destroyLinkedMultiPolygon %zu blocks are still allocated (out-of-domain set that was accepted)", leaked);
+    CHECK(bad == 0, "bad-free", "destroyLinkedMultiPolygon freed a block twice / a foreign pointer");
+}
+
 static void check(const Case &c) {
     size_t n = c.cells.size();
+    if (c.shape == 6) { errorPath(c); return; }
     if (n == 0) { DISCARD(); return; }
     std::set<uint64_t> S(c.cells.begin(), c.cells.end());
     if (S.size() != n) { DISCARD(); return; }
@@ -265,6 +294,19 @@ static Case draw() {
     // presentation order: generated permutation
     uint64_t s = r64();
     for (size_t i = c.cells.size(); i > 1; i--) std::swap(c.cells[i - 1], c.cells[(size_t)(splitmix(s) % i)]);
+    if (rpick({9, 1}) == 1) {  // error path: the same set made out-of-domain in one way
+        c.shape = 6;
+        size_t i = (size_t)(r64() % c.cells.size());
+        uint64_t h = c.cells[i];
+        switch (rpick({3, 2, 2, 1, 1, 1})) {
+            case 0: c.cells.push_back(h); break;                                                          // duplicate
+            case 1: if (c.res) c.cells[i] = h | (7ULL << (3 * (15 - ri(1, c.res)))); else c.cells[i] = h | (1ULL << 63); break;  // digit 7
+            case 2: c.cells[i] = c.res ? ref::parent(h, c.res - 1) : ref::center_child(h, 1); break;       // other resolution
+            case 3: c.cells[i] = (h & ~(127ULL << 45)) | ((uint64_t)ri(122, 127) << 45); break;            // base cell out of range
+            case 4: c.cells[i] = 0; break;                                                                  // null entry
+            default: c.cells[i] = (h & ~(15ULL << 59)) | (2ULL << 59); break;                              // an edge index among cells
+        }
+    }
     return c;
 }
 
